@@ -314,3 +314,6 @@ impl ParseState {
         Ok(())
     }
 }
+
+#[cfg(kani)]
+include!(concat!(env!("TOML_VERIF_KANI"), "/toml_edit/parser_state.rs"));
